@@ -151,6 +151,32 @@ pub fn sites(tier: Tier) -> Vec<Site> {
             }));
     }
     {
+        // counted kinds built through the typed API (independent of the decoder): 0..=protocol maximum
+        let cs = Arc::new(typed::counted());
+        let mut cases: Vec<(usize, usize)> = vec![];
+        for (ci, c) in cs.iter().enumerate() {
+            for n in 0..=c.max {
+                cases.push((ci, n));
+            }
+        }
+        let cases = Arc::new(cases);
+        let n = cases.len() as u64 * 2;
+        sites.push(Site::new("typed-counted", n,
+            "every counted kind (NLP MCI AXM PLH MAL IPB HOS) built through the typed API with 0..=protocol-maximum elements x mode",
+            move |i, acc| {
+                let compressed = i % 2 == 0;
+                let (ci, n) = cases[(i / 2) as usize];
+                let c = &cs[ci];
+                let Some(p) = (c.make)(n) else { return };
+                let mut l = c.header + c.elem * n;
+                if c.kind == "NLP" && n % 2 == 1 { l += 2; }
+                if !compressed && l > 255 { return; }
+                let label = format!("{} x{n}", c.kind);
+                let replay = json!({"site": "typed-counted", "index": i, "case": label});
+                roundtrip(acc, i, &label, c.kind, &p, compressed, true, None, &replay);
+            }));
+    }
+    {
         // text up to the field width, multi-codepage, caret-free, NUL-free, encodable
         let tfs = typed::text_fields();
         let mut cases: Vec<(usize, String, String)> = vec![];
